@@ -1,7 +1,8 @@
 import Victron.Basic.Wire
 import Victron.Model.Ble
-import Victron.Gen.Ble
-/- Line-protocol driver for the BLE cone (C07, C08): the regenerated decoders (`BD`). -/
+import Victron.Spec.BleLayouts
+/- Line-protocol driver: the BLE layout specification only (`BS`) — independent of the translated Go code, so it
+   still answers when the translation or a proof is broken: it is the oracle that finds the failing input. -/
 open Victron Victron.Ble
 
 def renderFV : FV → String
@@ -21,10 +22,10 @@ def hexOrEmpty (s : String) : Option Bytes := if s = "-" then some [] else parse
 
 def step (line : String) : String :=
   match line.splitOn " " with
-  | ["BD", name, inp, spare] =>
-    match Gen.Ble.decodeByName name, hexOrEmpty inp, hexOrEmpty spare with
-    | some f, some i, some s => renderRec (f i s)
-    | _, _, _ => "bad-op"
+  | ["BS", name, inp] =>
+    match BleSpec.layouts.find? (·.1 == name), hexOrEmpty inp with
+    | some (_, L), some i => renderRec (BleSpec.decode L i)
+    | _, _ => "bad-op"
   | _ => "bad-op"
 
 partial def loop (h : IO.FS.Stream) (out : IO.FS.Stream) : IO Unit := do
